@@ -823,6 +823,32 @@ func c11RunPairs(c *core.Ctx, ui int, u *c11Univ) {
 					c.Violate(sub, "wrong-answer", fmt.Sprintf("Intersects = %v, leaf model says %v", got, wantI), cas,
 						map[string]any{"universe": u.name, "x": c11Hex(a.cells), "y": c11Hex(b.cells)})
 				}
+				// the same argument written redundantly (a duplicated cell; a cell together with one of its
+				// descendants): the covered leaf set is unchanged, so are the answers
+				if a.norm && len(b.cells) > 0 {
+					dup := append(append(s2.CellUnion(nil), b.cells...), b.cells[len(b.cells)-1])
+					c11SortCells(dup)
+					red := [][]s2.CellID{dup}
+					for _, yc := range b.cells {
+						if c11Level(yc) < 30 {
+							nested := append(append(s2.CellUnion(nil), b.cells...), c11Child(yc, 2), c11Child(yc, 3))
+							c11SortCells(nested)
+							red = append(red, nested)
+							break
+						}
+					}
+					for ri, yv := range red {
+						if got := x.Contains(s2.CellUnion(yv)); got != wantC {
+							c.Violate(sub, "wrong-answer", fmt.Sprintf("Contains(redundantly written argument) = %v, leaf model says %v", got, wantC), append(cas, ri),
+								map[string]any{"universe": u.name, "x": c11Hex(a.cells), "y": c11Hex(yv)})
+						}
+						if got := x.Intersects(s2.CellUnion(yv)); got != wantI {
+							c.Violate(sub, "wrong-answer", fmt.Sprintf("Intersects(redundantly written argument) = %v, leaf model says %v", got, wantI), append(cas, ri),
+								map[string]any{"universe": u.name, "x": c11Hex(a.cells), "y": c11Hex(yv)})
+						}
+						st.ops += 2
+					}
+				}
 				if !c11EqCells(x, a.cells) || !c11EqCells(y, b.cells) {
 					c.Violate(sub, "wrong-answer", "a binary operation modified one of its operands", cas,
 						map[string]any{"universe": u.name, "x": c11Hex(a.cells), "y": c11Hex(b.cells)})
